@@ -367,6 +367,15 @@ def _as_bag(eng, recv, elem: V, name_hint=None):
     return recv
 
 
+def _by_value_guard(e, node):
+    """A mutable record is stored in a symbolic collection as a SNAPSHOT (vals.obj_sort). That is the record's final state only when nothing else
+    can reach it afterwards: the stored expression must be a temporary (the result of a call), not a name or attribute."""
+    if e.t[0] == "obj" or (e.t[0] == "opt" and e.t[1][0] == "obj"):
+        a = node.args[0] if isinstance(node, ast.Call) and node.args else None
+        if not isinstance(a, ast.Call):
+            raise OutOfSubset(f"record stored in a collection while still reachable under a name (line {getattr(node, 'lineno', '?')})")
+
+
 # ------------------------------------------------------------------ list / bag
 def m_append(reg, eng, st, recv, args, kwargs, node, rexpr):
     (e,) = args
@@ -385,9 +394,11 @@ def m_append(reg, eng, st, recv, args, kwargs, node, rexpr):
             # an Optional value appended to a list of non-Optional elements: the path must have established that it is not None
             eng.oblige(st, znot(e.x[0]), "pre@call", f"appended value is not None@{getattr(node, 'lineno', 0)}", getattr(node, "lineno", 0))
             e = e.x[1]
+        _by_value_guard(e, node)
         _store(eng, st, rexpr, V(recv.t, z3.Store(recv.x, to_term(coerce(e, recv.t[1])), TRUE)), recv)
         return [(st, VNONE)]
     if recv.t[0] == "seq":
+        _by_value_guard(e, node)
         _store(eng, st, rexpr, V(recv.t, z3.Concat(recv.x, z3.Unit(to_term(coerce(e, recv.t[1]))))), recv)
         return [(st, VNONE)]
     raise OutOfSubset(f"append on {recv.t}")
